@@ -80,6 +80,11 @@ func corrC06(c *corrCtx) {
 			c06Check(c, "jpeg/size", "jpeg", data, "data", p)
 		}
 	}
+	// carriers ending at every offset around the 4096-byte buffer boundaries
+	al, alp := alignedFiles(r, alignTargets(c.thorough()))
+	for i, s := range al {
+		c06Check(c, "aligned/"+s.format, s.format, s.data, "data", alp[i])
+	}
 	// JPEG: every permutation of up to 5 chunks, interleaved with other segments
 	maxPerm := 4
 	if c.thorough() {
